@@ -63,6 +63,9 @@ def try_call(it, f, args, kwargs, node):
         return GhostSocket(it, args[0])
     if f is sp.node_iteration:
         return node_iteration(it, args, kwargs, node)
+    r_ = fs_call(it, f, args, kwargs, node)
+    if r_ is not NotImplemented:
+        return r_
     if f is _time.time:
         it.ctx.notes.setdefault("env", set()).add("A-clock")
         return GhostClockValue(it)
@@ -212,3 +215,90 @@ def recv_msg_from_inbox(it, f, args, kwargs, node):
         return NotImplemented
     it.ctx.notes["assumed_contracts"].add("C17.recv_msg (complete frame)")
     return box
+
+
+# ------------------------------------------------------------------------------------------- file system (C19)
+
+TRUSTED["A-fs"] = ("file-system model for one directory: os.path.exists / os.makedirs / os.listdir (any order) / "
+                   "open(path, 'ab') (creates if absent, positioned at the end) / tell / write (appends) / close; "
+                   "any other mode or call leaves the model (the frame obligation then fails)")
+
+
+class GhostFile(E.GhostObj):
+    def __init__(self, fs, name):
+        self.fs = fs
+        self.name = name
+        self.open = True
+
+    def getattr(self, it, attr):
+        fs = self.fs
+        if attr == "tell":
+            return E.GhostFn(lambda it2, a, k, n: bytes_len(sym.to_vbytes(fs["files"][self.name])))
+        if attr == "write":
+            def f(it2, args, kwargs, node):
+                if not self.open:
+                    it2.raise_(ValueError, node)
+                fs["files"][self.name] = sym.bytes_concat(fs["files"][self.name], args[0])
+                fs["log"].append(("write", self.name, args[0]))
+                return bytes_len(sym.to_vbytes(args[0]))
+            return E.GhostFn(f)
+        if attr == "close":
+            def f(it2, args, kwargs, node):
+                self.open = False
+            return E.GhostFn(f)
+        raise Unsupported(f"file.{attr}: outside the append-only file-system model")
+
+
+def fs_run_write(it, args, kwargs, node):
+    """spec.fs.run_write(files, blocks, limit, listing_order, extra_names) on the ghost file system."""
+    import itertools
+    import os
+    import bits.p2p as p2p
+    import spec
+    files, blocks, limit = args[0], args[1], args[2]
+    extra = list(args[4]) if len(args) > 4 else list(kwargs.get("extra_names", ()))
+    names = [spec.fs.name(i) for i in range(len(files))]
+    fs = {"dir": "<datadir>", "files": {n: c for n, c in zip(names, files)}, "log": [], "exists": True}
+    it.ctx.ghost["fs"] = fs
+    it.ctx.ghost["fs_limit"] = limit
+    it.ctx.notes.setdefault("env", set()).add("A-fs")
+    # os.listdir may answer in any order: fork over the permutations of the .dat names
+    order = args[3] if len(args) > 3 else None
+    if order is None:
+        perms = list(itertools.permutations(range(len(names)))) or [()]
+        k = it.ctx.fork(len(perms)) if len(perms) > 1 else 0
+        order = perms[k]
+    fs["listing"] = extra + [names[i] for i in order]
+    it.call(p2p.write_blocks_to_disk, [list(blocks), fs["dir"]], {}, node)
+    return [(n, fs["files"][n]) for n in sorted(fs["files"])]
+
+
+def fs_call(it, f, args, kwargs, node):
+    """os / open calls of the verified code against the ghost file system."""
+    import builtins
+    import os
+    fs = it.ctx.ghost.get("fs")
+    if fs is None:
+        return NotImplemented
+    if f is os.path.exists:
+        return args[0] == fs["dir"] and fs["exists"] or (os.path.dirname(args[0]) == fs["dir"] and os.path.basename(args[0]) in fs["files"])
+    if f is os.makedirs:
+        fs["exists"] = True
+        return None
+    if f is os.listdir:
+        if args[0] != fs["dir"]:
+            raise Unsupported("listdir outside the modelled directory")
+        return list(fs["listing"])
+    if f is builtins.open:
+        path = args[0]
+        mode = args[1] if len(args) > 1 else kwargs.get("mode", "r")
+        if mode != "ab":
+            raise E.FrameViolation(f"open(..., {mode!r}): only append mode keeps earlier bytes unmodified")
+        if not isinstance(path, str) or os.path.dirname(path) != fs["dir"]:
+            raise Unsupported("open outside the modelled directory")
+        name = os.path.basename(path)
+        if name not in fs["files"]:
+            fs["files"][name] = b""
+            fs["log"].append(("create", name))
+        return GhostFile(fs, name)
+    return NotImplemented
